@@ -388,7 +388,7 @@ class C08(DiffProperty):
                "they are not proved",
                "isspace/isdigit/isprint/isalnum/isupper/tolower of the C locale are modelled as ASCII ranges"]
     level_text = ("proof: Coq theorems C08_parse_total, C08_parse_node_total, C08_getc_count_le_length, C08_fail_leaves_target, "
-                  "C08_events_well_nested, C08_events_depth, C08_no_fault, C08_element_call state, for EVERY input list (any bytes, NUL, "
+                  "C08_events_well_nested, C08_events_depth, C08_no_fault, C08_parse_node_no_fault, C08_element_call state, for EVERY input list (any bytes, NUL, "
                   "read-error codes), EVERY one of the four families, EVERY format record (all delimiter / comment / escape "
                   "assignments, zero = unset) and EVERY name-flag set, that the transcribed parser returns (the outer loop fuel always "
                   "suffices, all inner loops are structural recursions on the input), that what it read is a prefix of the input "
@@ -402,11 +402,11 @@ class C08(DiffProperty):
     level_note = ("trusted: Coq kernel; hand transcription of mptcore/parse/*.c, config/path_*.c, node_move.c (validated by the "
                   "correspondence run, not verified); extraction and OCaml driver; harness.  Invalid memory accesses and leaks of the "
                   "real code are OBSERVED (ASan/UBSan, LeakSanitizer per forked case), not proved; the model-level counterpart "
-                  "(C08_no_fault: no read outside the post data) is proved for the event-recording run; for mpt_parse_node the model's "
-                  "'sibling of the temporary root' state is not proved unreachable (never seen in any run).  fail_leaves_target holds "
+                  "(C08_no_fault / C08_parse_node_no_fault: no read outside the post data, no link operation on the temporary root) "
+                  "is proved.  fail_leaves_target holds "
                   "by construction of the model (temporary forest merged only on success) and is checked on the code by the harness.  "
                   "The path buffer (copy-on-write array) is abstracted to its bytes, allocation failure is not modelled.  The theorems "
-                  "hold for the tree with the fix: commits listed in docs/notes_C08.md.  All 8 theorems are closed under the global "
+                  "hold for the tree with the fix: commits listed in docs/notes_C08.md.  All 9 theorems are closed under the global "
                   "context (no axioms).")
     technique = "Coq proof (parser-state invariant by induction over the input) + differential correspondence check"
     assumptions = ["allocation succeeds", "getc returns each byte once and then -2 (a negative element in the model input stands for a read error)"]
